@@ -80,6 +80,24 @@ def specs(tier, seed):
                     "relay": {"qcase": "lower"}, "redeliver": red, "nofit": True,
                     "pkts": [[100 + 5000 * j, "S", "C0", "rand", 200 + 100 * (j % 3)] for j in range(6)],
                     "dur_ms": 40000, "label": "redstall%d" % i})
+    # the 3-bit downstream sequence number comes round again after eight packets: a multi-fragment packet, seven small
+    # ones, then another multi-fragment packet with the same sequence number - and while one of ITS fragments is waiting
+    # for its acknowledgement, the path delivers again the ping that acknowledged that fragment number eight packets ago
+    # (still inside the 30-ping memory, no longer in the answer cache)
+    for i in range(8 if tier == "quick" else 64):
+        fs = [100, 150, 200, 120][i % 4]
+        big = 3 * fs + 30 + 10 * (i % 3)
+        gap = 250
+        t2 = 300 + gap * 8
+        f = [0, 1, 0, 2][(i // 2) % 4]         # the fragment whose old acknowledgement is replayed
+        pk = [[300, "S", "C0", "rand", big]] + [[300 + gap * j, "S", "C0", "text", 30 + j] for j in range(1, 8)] + \
+            [[t2, "S", "C0", "rand", big], [t2 + 3000, "S", "C0", "rand", 80], [t2 + 3500, "C0", "S", "rand", 80]]
+        # fragment f of the second big packet goes out at t2 + 2 ms * f and is acknowledged 2 ms later (1 ms each way)
+        at = [t2 * 1000 + 2000 * f + d for d in ([400, 1500] if i % 2 else [900])]
+        out.append({"seed": seed * 100000 + 2100 + i,
+                    "sess": {"qtype": ["NULL", "PRIVATE", "TXT", "MX"][(i // 4) % 4], "lazy": 1, "fragsize": fs},
+                    "relay": {}, "replay_ack": [{"dseq": 1, "dfrag": f, "at_us": at, "newid": 1, "otherport": (i // 2) % 2}],
+                    "pkts": pk, "dur_ms": 12000, "label": "redwrap%d" % i})
     out = common.fit_frag(out)
     # regression scenarios: recorded runs that exposed a genuine defect (known_findings.json, "fixed:" entries)
     import glob
